@@ -18,25 +18,27 @@ Fixpoint run (st : state) (ops : list (op * nat)) : list (list viewt) :=
   end.
 
 Definition contents_of (vs : list viewt) : var -> list Z := fun v => fst (nth v vs ([], None)).
-(* judge the OBSERVED contents step by step with the frame rules; returns the number of steps that
-   violate them inside the guarded prefix, and in total *)
-Fixpoint judge (st : state) (c : cstate) (guarded : bool) (pre : list viewt) (ops : list (op * nat)) (obs : list (list viewt)) : nat * nat :=
+(* judge the OBSERVED contents step by step against the cons-cell reference machine run on the same
+   operations; returns the number of steps after which some variable differs from the reference inside the
+   guarded prefix, and in total *)
+Fixpoint judge (st : state) (c : cheap) (guarded : bool) (ops : list (op * nat)) (obs : list (list viewt)) : nat * nat :=
   match ops, obs with
   | (o, cap) :: ops', post :: obs' =>
-      let g := guarded && g_step NV st o in
-      let ok := frame_ok NV c o (contents_of pre) (contents_of post) in
-      let '(a, b) := judge (step st o cap) (cstep c o) g post ops' obs' in
+      let g := guarded && (dst_of o <? NV) && g_step st o in
+      let c' := cstep c o in
+      let ok := forallb (fun w => zlist_eqb (contents_of post w) (ccontents c' w)) (seq 0 NV) in
+      let '(a, b) := judge (step st o cap) c' g ops' obs' in
       ((if g && negb ok then S a else a), (if ok then b else S b))
   | _, _ => (0, 0)
   end.
-Definition nilviews : list viewt := repeat ([], None) NV.
 
-(* 0 ok.  1: M <> observed, no frame violation inside the guarded prefix.  2: M <> observed and the
-   observed contents break the frame rules inside the guarded prefix.  3: self-check: M = observed but
-   the frame rules are broken inside the guarded prefix (the theorem would be false) *)
+(* 0 ok.  1: M <> observed, but the observed contents equal the reference inside the guarded prefix.
+   2: M <> observed and the observed contents differ from the cons-cell reference inside the guarded prefix.
+   3: self-check: M = observed but differs from the reference inside the guarded prefix (the refinement
+   theorem would be false) *)
 Definition check_case (c : case) : N :=
   let agree := list_eqb (list_eqb view_eqb) (run (init NV) (fst c)) (snd c) in
-  let '(ing, _) := judge (init NV) (cinit NV) true nilviews (fst c) (snd c) in
+  let '(ing, _) := judge (init NV) (cinit NV) true (fst c) (snd c) in
   if agree then (if Nat.eqb ing 0 then 0%N else 3%N)
   else if Nat.eqb ing 0 then 1%N else 2%N.
 Fixpoint check_all_from (i : N) (cs : list case) : list (N * N) :=
@@ -48,10 +50,7 @@ Definition check_all := check_all_from 0%N.
 (* steps inside the guarded prefix, over all cases *)
 Fixpoint guarded_len (st : state) (ops : list (op * nat)) : nat :=
   match ops with
-  | (o, cap) :: ops' => if g_step NV st o then S (guarded_len (step st o cap) ops') else 0
+  | (o, cap) :: ops' => if (dst_of o <? NV) && g_step st o then S (guarded_len (step st o cap) ops') else 0
   | [] => 0
   end.
 Definition guard_count (cs : list case) : N := N.of_nat (fold_left (fun a c => a + guarded_len (init NV) (fst c)) cs 0).
-(* frame violations observed anywhere (outside the guard they are the known findings) *)
-Definition frame_violations (cs : list case) : N :=
-  N.of_nat (fold_left (fun a c => a + snd (judge (init NV) (cinit NV) true nilviews (fst c) (snd c))) cs 0).
